@@ -151,7 +151,9 @@ def gen_call(kind, world, rng, cur_map, cur_items):
         return ("add_auto", o, m, None)
     if r < 0.55:
         o, m = world.item(lab, rng.randrange(3))
-        return ("add_explicit", o, m, pick_channel(kind, rng, cur_map))
+        c = pick_channel(kind, rng, cur_map)
+        # a channel number is a number: a quarter of them arrive as numpy integers (what a decoded block's own map holds)
+        return ("add_explicit", o, m, c, rng.choice(("int", "int", "int", "np")))
     if r < 0.60:
         o, m = world.other()
         return ("add_auto", o, m, None) if rng.random() < 0.5 else ("add_explicit", o, m, 5)
@@ -167,6 +169,9 @@ def gen_call(kind, world, rng, cur_map, cur_items):
                 return ("remove_item", rng.choice(cur_items))
             o, m = world.item("nobody", 9)
             return ("remove_item", o)
+        if q < 0.56 and cur_items:
+            # the block's own (channel, platform) pairs, filtered / reordered, assigned back:  b.platforms = [(c, p) for ...]
+            return ("reassign_own_pairs", rng.randrange(0, n + 1), rng.random() < 0.3)
         if q < 0.6:                                    # remove_platforms: a list of platform objects and indices
             keys = []
             for _ in range(rng.randrange(0, 4)):
@@ -203,10 +208,21 @@ def perform(kind, b, call):
             (b.addSignal if kind == "EM" else b.add_platform)(call[1])
         elif name == "add_explicit":
             mcalls = [[1, call[2], [call[3]]]]
+            ch = call[3]
+            if len(call) > 4 and call[4] == "np":
+                import numpy as np
+                ch = np.int16(ch) if -32768 <= ch <= 32767 else np.int64(ch)
             if kind == "EM":
-                b.addSignal(call[1], channel=call[3])
+                b.addSignal(call[1], channel=ch)
             else:
-                b.add_platform(call[1], channel=call[3])
+                b.add_platform(call[1], channel=ch)
+        elif name == "reassign_own_pairs":
+            pairs = list(b.platforms)
+            kept = [pr for i, pr in enumerate(pairs) if i != call[1]]
+            if call[2]:
+                kept.reverse()
+            mcalls = [[6, [[WORLD.model_of(p_), [int(c_)]] for c_, p_ in kept]]]
+            b.platforms = kept
         elif name == "remove_label":
             mcalls = [[2, cps(call[1])]]
             b.removeSignal(call[1])
@@ -247,6 +263,8 @@ def label_of(call):
         return "remove_item"
     if n == "remove_many":
         return "remove_many(%r)" % (["item" if not isinstance(k, int) else k for k in call[1]],)
+    if n == "reassign_own_pairs":
+        return "platforms = own pairs%s%s" % (" without #%d" % call[1], ", reversed" if call[2] else "")
     if n in ("add_many", "assign_pairs"):
         return "%s(%d items, channels=%r)" % (n, len(call[1]), call[2])
     if n == "assign_items":
